@@ -55,7 +55,7 @@ def run(chk):
     enlarge = (not proved) or bool(chk.broken)
     if enlarge:
         chk.cov["search"] = ("theorem file / translator / table tie broke: the differential run is enlarged to "
-                             "the thorough plans and 20x the random composed operators; it is the search for a "
+                             "the thorough plans and 4x the random composed operators; it is the search for a "
                              "failing input")
     P = plans("thorough" if enlarge else tier, chk.rng)
     hist = {"plans": {}, "recipes": 0, "random_composed_operators": 0, "construct_errors": [], "timeouts": [],
@@ -64,7 +64,7 @@ def run(chk):
     cases = [r for r in R if r.c44 and r.op is not None]
     hist["recipes"] = len(cases)
     pool = ac.stage_pool(R, multicast_ok=True)
-    npipe = {"quick": 200, "thorough": 2500}[tier] * (20 if enlarge and tier == "quick" else 1)
+    npipe = {"quick": 200, "thorough": 2500}[tier] * (4 if enlarge and tier == "quick" else 1)
     pipes, seen = [], set()
     for _ in range(npipe):
         p = ac.random_pipeline(chk.rng, pool)
@@ -113,7 +113,7 @@ def run(chk):
                                         "[time, kind, value]...] and source subscription intervals",
                                 "one_shared_operator_value": sh, "fresh_operator_value_per_source": fr,
                                 "expected": "identical", "operators_used": list(m.uses)},
-                          size=len(getattr(m, "stages", [m])))
+                          size=len(m.uses) + 2 * (len(getattr(m, "stages", [m])) - 1))
     pub = ac.public_operator_names()
     have = {r.name for r in cases}
     missing = sorted(n for n in pub if "ops." + n not in have)
